@@ -9,7 +9,15 @@
 (*            (foreign when k > np / na; 3 is always foreign); pairing of  *)
 (*            the annotated and the predicted clip:                        *)
 (*            "same" (one object), "copy" (two equal objects, same uuid),  *)
-(*            "diff_times" (another clip of the recording), "diff_rec"     *)
+(*            "diff_times" (another clip of the recording), "diff_rec";    *)
+(*            ase / pse: which sound event annotation k / prediction k     *)
+(*            wraps (<<1, 2, 3>> = each its own).  Two annotations may     *)
+(*            wrap one and the same sound event; they remain two annotated *)
+(*            sound events: Valid is decided on the annotation / prediction*)
+(*            objects (as the validator of the library reads "mention      *)
+(*            every annotated and every predicted sound event exactly      *)
+(*            once"), never on the wrapped SoundEvent, so Valid does not   *)
+(*            depend on ase / pse                                          *)
 (*  "match"   one match with / without source s and target t (0 / 1)       *)
 (*  "project" annotation project over clips 1..3: task[k], ann[k] booleans *)
 (*  "clip"    start st and end en (integer ticks of unit u), written as    *)
